@@ -614,7 +614,9 @@ class Run:
             raise Violation("transparent", "wrong-result",
                             f"request {k} (spec {i}) field {cmpres[0]}: {cmpres[1]}; answer belongs to a request differing in {cause}",
                             {"op": k, "field": cmpres[0], "cause": cause})
-        self.log.add(k, "req", i, "hit" if not solved else "solved", [arr_digest(res[1]), arr_digest(res[2])])
+        # (no bit-level array digests in the run digest: across processes C12
+        # only promises equality to rounding)
+        self.log.add(k, "req", i, "hit" if not solved else "solved", [str(np.asarray(res[1]).dtype), list(np.shape(res[1]))])
         _scribble(res)
         if spec["footprint"]:
             if should_hit and solved:
@@ -689,7 +691,7 @@ class Run:
                     self.intact[key] = stored[0]
                     self.stored_by[stored[0]] = self.real_proc
                     self.bad_files.discard(stored[0])
-        self.log.add(k, "series", j, [arr_digest(r["flx"]) for r in out], [t[0] for t in trace])
+        self.log.add(k, "series", j, [list(np.shape(r["flx"])) for r in out], [t[0] for t in trace])
 
     def op_damage(self, op, k):
         skey = self.cwd_tag + canon(self.rec["specs"][op["spec"]])
@@ -868,6 +870,13 @@ def execute_run(job):
         run.run()
     except _ForkResult as fr:
         run.disk.uninstall()
+        if run.fork_w is not None:
+            # this process is itself the continuation of an earlier restart:
+            # hand the result up the chain, never to the harness pipe
+            from sim.harness import _send
+
+            _send(run.fork_w, fr.out)
+            os._exit(0)
         return fr.out
     except Violation as v:
         out["status"] = "violation"
@@ -904,6 +913,15 @@ def execute_run(job):
 # enumerated sub-space: every truncation length, every journal boundary
 
 
+def _plain_store_failed(e, what):
+    """A plain store (no fault injected by the simulator) raised."""
+    import errno as _e
+
+    if isinstance(e, OSError) and e.errno in (_e.ENOSPC, _e.EDQUOT, _e.EMFILE, _e.ENFILE, _e.ENOMEM):
+        return HarnessError(f"the machine ran out of a resource during {what}: {e}")
+    return Violation("never-fatal", "exception", f"{what} raised {type(e).__name__}: {str(e)[:200]}", {"exc": type(e).__name__})
+
+
 def _clear_files(keep=()):
     """Remove regular files in the cache directory (not sub-directories: what
     the code under test put there stays, as it would in a user's directory)."""
@@ -928,7 +946,7 @@ def _store_entry(spec, run_dir):
         try:
             solve(**args, cache=c)
         except Exception as e:
-            raise Violation("never-fatal", "exception", f"a plain storing request raised {type(e).__name__}: {str(e)[:200]}", {"exc": type(e).__name__})
+            raise _plain_store_failed(e, "a plain storing request")
         disk.verify()
         journal = list(disk.journal)
     finally:
@@ -1147,7 +1165,7 @@ def execute_xproc(job):
         try:
             solve(**args, cache=GreensFunctionCache(CACHE_DIR))
         except Exception as e:
-            raise Violation("never-fatal", "exception", f"a plain storing request raised {type(e).__name__}: {str(e)[:200]}", {"exc": type(e).__name__})
+            raise _plain_store_failed(e, "a plain storing request")
         want = [arr_digest(g) for g in exp[0]] + [arr_digest(exp[1]), arr_digest(exp[2])]
         for hs in job["hashseeds"]:
             env = dict(os.environ, PYTHONHASHSEED=str(hs), PYTHONDONTWRITEBYTECODE="1", NUMBA_CACHE_DIR=job["numba_dir"])
@@ -1197,7 +1215,7 @@ def execute_many(job):
             try:
                 solve(**S.build_args(s2), cache=c)
             except Exception as e:
-                raise Violation("never-fatal", "exception", f"storing request {k} of {n} raised {type(e).__name__}: {str(e)[:200]}", {"exc": type(e).__name__})
+                raise _plain_store_failed(e, f"storing request {k} of {n}")
         for k in (0, n // 2, n - 1):
             s2 = dict(spec, meas_pt=[spec["meas_pt"][0] + 0.5 * k, spec["meas_pt"][1]])
             args = S.build_args(s2)
@@ -1214,6 +1232,9 @@ def execute_many(job):
     except Violation as v:
         out["status"] = "violation"
         out["violation"] = v.as_dict()
+    except HarnessError as e:
+        out["status"] = "harness_error"
+        out["error"] = str(e)
     return out
 
 
@@ -1346,6 +1367,8 @@ def plan(tier, master_seed, runs=None):
     enum_jobs = []
     for e in range(E):
         spec = S.base_spec(gen)
+        while spec["ny"] * spec["nx"] > 16 * 16 or spec["nz"] > 6:
+            spec = S.base_spec(gen)  # enumeration is per byte of the entry: keep the entry small (< 40 kB)
         spec["footprint"] = True
         spec["analytic"] = False  # (analytic + several levels is not a valid request)
         if e == 0:
@@ -1358,7 +1381,7 @@ def plan(tier, master_seed, runs=None):
         for lo in range(0, 100, 10):
             enum_jobs.append({"kind": "enum_kill", "spec": spec, "lo": lo, "hi": lo + 10})
         if e == 0:
-            enum_jobs.append({"kind": "many", "spec": spec, "n": 700 if tier == "quick" else 3000, "timeout": 900})
+            enum_jobs.append({"kind": "many", "spec": dict(spec, levels=spec["nz"] - 1), "n": 700 if tier == "quick" else 3000, "timeout": 900})
         if e < 2:
             enum_jobs.append({"kind": "xproc", "spec": spec, "hashseeds": [1 + e, 4242 + e], "timeout": 900})
     # enumeration first: it is the exhaustive part
@@ -1425,7 +1448,7 @@ def evidence(plan_, executed, tier, master_seed):
         "probes": probes,
         "file_api_operations_interposed": hooks,
         "enumerated": {
-            "exhaustive": True,
+            "exhaustive": all((l or 0) <= 40000 for _, l in entry_lens) and bool(entry_lens),
             "entries": len(entry_lens),
             "entry_lengths": [l for _, l in entry_lens],
             "truncation_cases": trunc_cases,
